@@ -11,7 +11,7 @@ TRACE_JAVA = "-Xss1g -Dtlc2.tool.queue.IStateQueue=StateDeque"
 
 def tier_params(tier):
     if tier == "thorough":
-        return dict(cfg="MC_MessageParse_thorough.cfg", trace_every=3, policies=3, tlc_timeout=3000, trace_max=80)
+        return dict(cfg="MC_MessageParse_thorough.cfg", trace_every=25, policies=2, tlc_timeout=3000, trace_max=80)
     return dict(cfg="MC_MessageParse_quick.cfg", trace_every=4, policies=1, tlc_timeout=900, trace_max=60)
 
 
@@ -66,4 +66,10 @@ def run_pipeline(prop, tier):
     log("[%s] TLC CursorTrace: %d lines explained, %d runs flagged, %.0fs" %
         (prop, tv["lines"], len(tv["results"]), tv.get("wall", 0)))
     os.remove(mc["out_path"])
+    if tier == "thorough":      # the thorough files are large: keep only the summary
+        for f in (cases, traces):
+            try:
+                os.remove(f)
+            except OSError:
+                pass
     return dict(mc=mc, ncases=n, summary=summary, trace=tv, wall=time.time() - t0, wd=wd, cfg=p["cfg"])
